@@ -77,14 +77,33 @@ class LoopMixin:
             return self._while_unroll(st)
         return self._while_inv(st)
 
+    def _snap(self):
+        fr = self.frames[-1]
+        snap = {}
+        for n, v in fr.locals.items():
+            v = self.resolve(v)
+            if isinstance(v, IntV):
+                snap[('local', n)] = v
+            elif isinstance(v, SeqV) and len(v.segs) == 1 and isinstance(v.segs[0], Sl):
+                snap[('start', n)] = v.segs[0].lo
+        if isinstance(fr.self_obj, ObjV):
+            for n, v in fr.self_obj.fields.items():
+                if isinstance(v, IntV):
+                    snap[('attr', n)] = v
+        for f in self.all_files:
+            snap[('file', f.name)] = f.pos
+        return snap
+
     def _while_unroll(self, st):
         for i in range(self.an.unroll + 1):
             if not self.truth(self.eval(st.test)):
+                self.event('loop-end-snap', st, snap=self._snap())
                 self.exec_block(st.orelse)
                 return
             if i == self.an.unroll:
+                self.event('loop-end-snap', st, snap=self._snap())
                 raise Abandon('unroll bound')
-            self.event('loop-iter', st, n=i)
+            self.event('loop-iter', st, n=i, snap=self._snap())
             try:
                 self.exec_block(st.body)
             except BreakSig:
@@ -296,14 +315,16 @@ class LoopMixin:
             if gens[k].value is not None:
                 self._write_key(k, gens[k].value)
         self._havoc_containers(mutated, st)
-        self.event('loop-head', st, pre=pre, gen={k: g.value for k, g in gens.items()})
+        self.event('loop-head', st, pre=pre, gen={k: g.value for k, g in gens.items()},
+                   files={id(f): (f, f.pos) for f in self.all_files})
         return keys, gens
 
     def _loop_back(self, st, keys, gens):
         post = {k: self._read_key(k) for k in keys}
         for k in keys:
             gens[k].check(post[k])
-        self.event('loop-back', st, post=post, gen={k: g.value for k, g in gens.items()})
+        self.event('loop-back', st, post=post, gen={k: g.value for k, g in gens.items()},
+                   files={id(f): (f, f.pos) for f in self.all_files})
         raise LoopBack(st)
 
     def _while_inv(self, st):
